@@ -122,6 +122,9 @@ func checkUCI(c Case, rec *evid.Rec) error {
 	third := cnt[p.Key()] >= 3
 	final := third || len(p.Legal()) == 0 || p.Half >= 100
 	cmd := "position fen " + c.FEN
+	if c.FEN == gen.StartFEN && len(c.Moves)%2 == 0 {
+		cmd = "position startpos" // the other way of setting up the same history
+	}
 	if len(c.Moves) > 0 {
 		cmd += " moves " + strings.Join(c.Moves, " ")
 	}
